@@ -327,12 +327,12 @@ def guard_dnf(fn, node):
                 d = _dnf(p.test, False)
             else:
                 d = [[]]
-            out = [a + b for a in out for b in d]
+            out = [b + a for a in out for b in d]          # outer conditions first (evaluation order)
             if len(out) > 256:
                 raise AnalysisError('guard too large for DNF')
         elif isinstance(p, ast.IfExp) and cur is not p.test:
             d = _dnf(p.test, cur is p.body)
-            out = [a + b for a in out for b in d]
+            out = [b + a for a in out for b in d]
         cur = p
     return out
 
@@ -444,3 +444,102 @@ def check_identity_only(ctx, fn, param, rule, why):
                 bad.append(n)
     ctx.ob(rule, '%s(%s)' % (fn.fq, param), '`%s` is examined by identity (`is None`) only, never by truthiness: %s' % (param, why),
            not bad, loc=loc(fn, bad[0]) if bad else loc(fn), detail='truthiness test at line %d' % bad[0].lineno if bad else '')
+
+
+def returned_values(prog, f, recv=None):
+    """[(expanded value of the return, path)] for every normal return path of f (locals and call results substituted)."""
+    w, paths = paths_of(prog, f, recv=recv)
+    out = []
+    for p in paths:
+        if p.kind == 'return':
+            v = p.outcome[1]
+            out.append((w.expand(v, literals=True) if v is not None else None, p, w))
+    return out
+
+
+def require_fields(prog, cls_fq, names):
+    """The state fields a property's anchors name must exist in the class (assigned through `self.<name>` somewhere in the
+    class or a repository base, or defined at class level).  A renamed / removed anchor makes the rules meaningless, so it is
+    an ANALYSIS-ERROR (exit 2), never a verdict."""
+    ci = prog.cls(cls_fq)
+    have = set()
+    for c in prog.mro(ci):
+        node = getattr(c, 'node', None)
+        if node is None:
+            continue
+        have |= set(getattr(c, 'members', {}) or {})
+        for n in ast.walk(node):
+            if isinstance(n, ast.Attribute) and isinstance(n.ctx, ast.Store) and isinstance(n.value, ast.Name) and \
+                    n.value.id in ('self', 'cls'):
+                have.add(n.attr)
+            elif isinstance(n, ast.Assign) and n in node.body:
+                have |= {t.id for t in n.targets if isinstance(t, ast.Name)}
+    missing = [n for n in names if n not in have]
+    if missing:
+        raise AnalysisError('anchor vanished: field(s) %s of %s, named in the property, are no longer assigned anywhere in the class'
+                            % (', '.join(missing), cls_fq))
+
+
+def require_members(prog, cls_fq, names):
+    """Methods / hooks that the property's anchors name must be defined in the class (or a repository base)."""
+    ci = prog.cls(cls_fq)
+    missing = [n for n in names if not isinstance(prog.resolve(ci, n), FuncInfo)]
+    if missing:
+        raise AnalysisError('anchor vanished: method(s) %s of %s, named in the property' % (', '.join(missing), cls_fq))
+
+
+def require_module_names(prog, modname, names):
+    """Module-level constants / functions / classes that the property's anchors name must still be bound."""
+    mod = prog.module(modname)
+    missing = [n for n in names if n not in mod.assigns and n not in mod.functions and n not in getattr(mod, 'classes', {})]
+    if missing:
+        raise AnalysisError('anchor vanished: module-level name(s) %s of %s, named in the property' % (', '.join(missing), modname))
+
+
+_FLIP = {ast.Lt: ast.Gt, ast.Gt: ast.Lt, ast.LtE: ast.GtE, ast.GtE: ast.LtE}
+
+
+def cmp_text(e, subject=None):
+    """Text of a test with single comparisons oriented canonically: the subject (a name) on the left if it takes part,
+    otherwise constants on the right; `a < b` and `b > a` give the same text."""
+    e = ast.fix_missing_locations(ast.parse(ast.unparse(e), mode='eval').body)
+
+    class N(ast.NodeTransformer):
+        def visit_Compare(self, n):
+            self.generic_visit(n)
+            if len(n.ops) != 1:
+                return n
+            l, r, op = n.left, n.comparators[0], n.ops[0]
+            swap = False
+            if subject is not None and isinstance(r, ast.Name) and r.id == subject and not (isinstance(l, ast.Name) and l.id == subject):
+                swap = True
+            elif subject is None and isinstance(l, ast.Constant) and not isinstance(r, ast.Constant):
+                swap = True
+            if swap and (type(op) in _FLIP or isinstance(op, (ast.Eq, ast.NotEq, ast.Is, ast.IsNot))):
+                n.left, n.comparators = r, [l]
+                n.ops = [_FLIP.get(type(op), type(op))()]
+            return n
+    return txt(N().visit(e))
+
+
+def guard_atoms(fn, node, var):
+    """Canonical form of the condition under which `node` executes, restricted to the atoms that mention `var`:
+    a frozenset (disjunction) of frozensets (conjunctions) of (atom text with var written X, truth).  Insensitive to
+    nesting (`if a and b` vs `if a: if b`), De Morgan rewrites and the orientation of comparisons."""
+    out = set()
+    for conj in guard_dnf(fn, node):
+        atoms = set()
+        for a, truth in conj:
+            if any(isinstance(x, ast.Name) and x.id == var for x in ast.walk(a)):
+                e, neg = strip_not(a)
+                t = cmp_text(e, var)
+                # `X is not None` (true)  ==  `X is None` (false)
+                tr = truth != neg
+                for pos, negt in ((' is not ', ' is '), (' != ', ' == '), (' not in ', ' in ')):
+                    if pos in t:
+                        t, tr = t.replace(pos, negt), not tr
+                        break
+                import re as _re
+                atoms.add((_re.sub(r'\b%s\b' % _re.escape(var), 'X', t), tr))
+        out.add(frozenset(atoms))
+    return frozenset(out)
